@@ -152,7 +152,7 @@ class RelaxationTensor(SuperOperator, Secular, Saveable):
             for a in range(dim):
                 for b in range(dim):
                     self._data[a,b,:,:] = \
-                    numpy.dot(S1,numpy.dot(self._data[a,b,:,:],SS))
+                    numpy.dot(SS.T,numpy.dot(self._data[a,b,:,:],S1.T))
         else:
 
             for tt in range(self._data.shape[0]):
@@ -164,7 +164,7 @@ class RelaxationTensor(SuperOperator, Secular, Saveable):
                 for a in range(dim):
                     for b in range(dim):
                         self._data[tt,a,b,:,:] = \
-                            numpy.dot(S1,numpy.dot(self._data[tt,a,b,:,:],SS))            
+                            numpy.dot(SS.T,numpy.dot(self._data[tt,a,b,:,:],S1.T))            
 
 
     def convert_2_tensor(self):
